@@ -24,3 +24,5 @@ def run(prog, rep):
     r_order.run_order(prog, rep)
     from ..rules import r_close as _rc
     _rc.run_fapl(prog, rep)
+    from ..rules import r_key as _rk2
+    _rk2.run_const_pure(prog, rep)
